@@ -17,6 +17,9 @@ TEMPLATES = {
     "module-code": "<%! import math\nK = math.floor(2.5) %>${K}${a}\n",
     "nested": '<%def name="o()"><%def name="i()">${a}${b}</%def>${i()}${c}</%def>${o()}${d}\n',
     "pageargs": '<%page args="a, z=7"/>${a}${z}${b}\n',
+    # a source encoding declared only by its magic comment, not UTF-8: the module file must be written and labelled alike
+    "latin1-comment": ("## -*- coding: iso-8859-1 -*-\ncaf\xe9 cr\xe8me ${a} <% s = 'h\xe9llo' %>${s}\n", "iso-8859-1"),
+    "cp1251-comment": ("## -*- coding: cp1251 -*-\n\u041f\u0440\u0438\u0432\u0435\u0442 ${a}\n", "cp1251"),
     # inner defs whose argument defaults are context names: every declaration order the code generator can choose must work
     "nested-defaults": '<%def name="o()"><%def name="i1(x=a)">${x}</%def><%def name="i2(y=b)">${y}</%def><%def name="i3(z=c)">${z}</%def>${i1()}${i2()}${i3()}${d}</%def>${o()}\n',
 }
@@ -30,7 +33,8 @@ from mako.lookup import TemplateLookup
 from mako.runtime import Context
 from mako.util import FastEncodingBuffer
 root, name = sys.argv[1], sys.argv[2]
-src = open(os.path.join(root, name + ".html"), "rb").read().decode("utf-8")
+enc = sys.argv[4]
+src = open(os.path.join(root, name + ".html"), "rb").read().decode(enc)
 data = json.loads(sys.argv[3])
 out = {}
 import re
@@ -76,13 +80,23 @@ print(json.dumps(out))
 '''
 
 
+def template_text(name):
+    t = TEMPLATES[name]
+    return t[0] if isinstance(t, tuple) else t
+
+
+def template_enc(name):
+    t = TEMPLATES[name]
+    return t[1] if isinstance(t, tuple) else "utf-8"
+
+
 def run_one(args):
     name, seed, repo = args
     root = tempfile.mkdtemp(prefix="c08_")
     try:
-        open(os.path.join(root, name + ".html"), "wb").write(TEMPLATES[name].encode("utf-8"))
+        open(os.path.join(root, name + ".html"), "wb").write(template_text(name).encode(template_enc(name)))
         env = dict(os.environ, PYTHONHASHSEED=str(seed), MAKO_REPO=repo, PYTHONDONTWRITEBYTECODE="1")
-        p = subprocess.run([sys.executable, "-c", CHILD, root, name, json.dumps(DATA)], capture_output=True, text=True, env=env, timeout=120)
+        p = subprocess.run([sys.executable, "-c", CHILD, root, name, json.dumps(DATA), template_enc(name)], capture_output=True, text=True, env=env, timeout=120)
         if p.returncode != 0:
             return {"template": name, "seed": seed, "problem": "child failed: %s" % p.stderr[-400:]}
         res = json.loads(p.stdout)
@@ -114,7 +128,7 @@ def compare(results):
         by_t.setdefault(r["template"], []).append(r)
     for name, rs in by_t.items():
         ref = rs[0]["paths"]["string"]["render_unicode"]
-        src = TEMPLATES[name]
+        src = template_text(name)
         for r in rs:
             for path, v in r["paths"].items():
                 for k in ("render_unicode", "render", "render_context"):
